@@ -3,7 +3,7 @@
 // Line protocol on stdin (strings hex-encoded, "-" = empty):
 //   spawn N | new | sw <switch> <0|1> | fn <out|err|log|dump|sel> <hex> | cur <n> | cb <0|1>
 //   load <hexpath> | loads <hexpath> | run <hex> | runf <hexpath> | acc <hex> | accline <hex>
-//   probe <tag> | state <tag> | wstate <tag> | mark <tag>
+//   probe <tag> | state <tag> (member dump + deep table hashes) | deepv <tag> (tables in full) | wstate <tag> | mark <tag> | cleanfiles
 // Own access shim (harness/friend.hpp is not included: this TU needs more members of class TestIPhreeqc).
 #ifndef CPPUNIT
 #define CPPUNIT 1
@@ -111,6 +111,7 @@ public:
 #undef WF
   }
   static void estate(IPhreeqc* p, const std::string& tag, std::ostream& o);
+  static void deep(IPhreeqc* p, const std::string& tag, std::ostream& o, bool verbose);
 };
 
 // generated by tools/gen_members.py (TestIPhreeqc::estate); props/c07.py passes -I <build>/c07gen, a plain build finds it in /verif/build
@@ -119,6 +120,77 @@ public:
 #else
 #include "../build/c07gen/c07_members_gen.hpp"
 #endif
+
+
+// ---- deep dump: the heap objects reachable from the members of class Phreeqc (tables of the loaded database, parameter
+// objects, BASIC programs, caches).  One line per table: count + FNV-1a hash of a canonical text; `verbose` prints the text.
+struct Acc {
+  std::string t; size_t n = 0;
+  void d(double v) { t += hx::hexd(v); t += ' '; }
+  void i(long long v) { t += std::to_string(v); t += ' '; }
+  void s(const char* c) { t += c ? c : "<null>"; t += ' '; }
+  void s(const std::string& c) { t += c; t += ' '; }
+  void p(const void* q) { t += q ? "P " : "0 "; }
+  void end() { t += '\n'; ++n; }
+};
+static unsigned long long fnv(const std::string& s) { unsigned long long h = 1469598103934665603ULL; for (unsigned char c : s) { h ^= c; h *= 1099511628211ULL; } return h; }
+static void rxn(Acc& a, CReaction& r) {
+  for (int k = 0; k < MAX_LOG_K_INDICES; ++k) a.d(r.logk[k]);
+  for (int k = 0; k < 3; ++k) a.d(r.dz[k]);
+  for (size_t k = 0; k < r.token.size(); ++k) { a.s(r.token[k].s ? r.token[k].s->name : r.token[k].name); a.d(r.token[k].coef); }
+}
+static void pitzp(Acc& a, pitz_param* q) {
+  if (!q) { a.s("<null>"); return; }
+  a.i((int)q->type); for (int k = 0; k < 3; ++k) a.s(q->species[k]);
+  a.d(q->p); for (int k = 0; k < 6; ++k) a.d(q->a[k]); a.d(q->alpha); a.d(q->os_coef); for (int k = 0; k < 3; ++k) a.d(q->ln_coef[k]);
+  a.p(q->thetas);
+}
+void TestIPhreeqc::deep(IPhreeqc* ip, const std::string& tag, std::ostream& o, bool verbose) {
+  Phreeqc* e = ip->PhreeqcPtr;
+  auto out = [&](const char* name, Acc& a) {
+    o << "D " << tag << " " << name << " " << a.n << " " << std::hex << fnv(a.t) << std::dec;
+    if (verbose) o << " " << hx::hex(a.t);
+    o << "\n";
+  };
+  { Acc a; for (size_t k = 0; k < e->elements.size(); ++k) { element* x = e->elements[k]; a.s(x->name); a.d(x->gfw); a.s(x->master && x->master->elt ? x->master->elt->name : 0); a.s(x->primary && x->primary->elt ? x->primary->elt->name : 0); a.end(); } out("elements", a); }
+  { Acc a; for (size_t k = 0; k < e->master.size(); ++k) { master* m = e->master[k]; a.s(m->elt ? m->elt->name : 0); a.s(m->s ? m->s->name : 0); a.i(m->in); a.i((long long)m->number); a.i(m->last_model); a.i(m->type); a.i(m->primary);
+      a.d(m->coef); a.d(m->total); a.d(m->alk); a.d(m->gfw); a.s(m->gfw_formula); a.d(m->total_primary); a.i(m->isotope); a.end(); } out("master", a); }
+  { Acc a; Acc w; for (size_t k = 0; k < e->s.size(); ++k) { species* x = e->s[k]; a.s(x->name); a.s(x->mole_balance); a.d(x->z); a.d(x->gfw); a.d(x->dw); a.d(x->dw_t); a.d(x->dw_a); a.d(x->dw_a2); a.d(x->dw_a3); a.d(x->dw_a_visc);
+      a.d(x->erm_ddl); a.d(x->equiv); a.d(x->alk); a.d(x->carbon); a.d(x->co2); a.d(x->h); a.d(x->o); a.d(x->dha); a.d(x->dhb); a.d(x->a_f);
+      for (int q = 0; q < MAX_LOG_K_INDICES; ++q) a.d(x->logk[q]); for (int q = 0; q < 10; ++q) a.d(x->Jones_Dole[q]); for (int q = 0; q < 7; ++q) a.d(x->millero[q]);
+      for (size_t q = 0; q < x->add_logk.size(); ++q) { a.s(x->add_logk[q].name); a.d(x->add_logk[q].coef); }
+      a.i(x->type); a.i(x->gflag); a.i(x->exch_gflag); a.i(x->check_equation); for (int q = 0; q < 5; ++q) a.d(x->cd_music[q]); for (int q = 0; q < 3; ++q) a.d(x->dz[q]);
+      a.s(x->primary && x->primary->elt ? x->primary->elt->name : 0); a.s(x->secondary && x->secondary->elt ? x->secondary->elt->name : 0);
+      rxn(a, x->rxn); a.end();
+      // working values of the last calculation
+      w.s(x->name); w.i(x->in); w.i(x->number); w.d(x->lk); w.d(x->lg); w.d(x->lg_pitzer); w.d(x->lm); w.d(x->la); w.d(x->dg); w.d(x->moles); w.d(x->tot_g_moles); rxn(w, x->rxn_s); rxn(w, x->rxn_x); w.end(); }
+    out("species", a); out("species_work", w); }
+  { Acc a; Acc w; for (size_t k = 0; k < e->phases.size(); ++k) { phase* x = e->phases[k]; a.s(x->name); a.s(x->formula); for (int q = 0; q < MAX_LOG_K_INDICES; ++q) a.d(x->logk[q]);
+      for (size_t q = 0; q < x->add_logk.size(); ++q) { a.s(x->add_logk[q].name); a.d(x->add_logk[q].coef); }
+      a.d(x->t_c); a.d(x->p_c); a.d(x->omega); for (int q = 0; q < 9; ++q) a.d(x->delta_v[q]); a.i(x->type); a.i(x->check_equation); a.i(x->replaced); rxn(a, x->rxn); a.end();
+      w.s(x->name); w.i(x->in); w.d(x->lk); w.d(x->moles_x); w.d(x->p_soln_x); w.d(x->fraction_x); w.d(x->pr_a); w.d(x->pr_b); w.d(x->pr_alpha); w.d(x->pr_tk); w.d(x->pr_p); w.d(x->pr_phi); w.d(x->pr_aa_sum2); w.d(x->pr_si_f);
+      w.i(x->pr_in); w.i(x->in_system); rxn(w, x->rxn_s); rxn(w, x->rxn_x); w.end(); }
+    out("phases", a); out("phases_work", w); }
+  { Acc a; for (size_t k = 0; k < e->logk.size(); ++k) { class logk* x = e->logk[k]; a.s(x->name); a.d(x->lk); for (int q = 0; q < MAX_LOG_K_INDICES; ++q) { a.d(x->log_k[q]); a.d(x->log_k_original[q]); } a.i(x->done);
+      for (size_t q = 0; q < x->add_logk.size(); ++q) { a.s(x->add_logk[q].name); a.d(x->add_logk[q].coef); } a.end(); } out("logk", a); }
+  { Acc a; for (size_t k = 0; k < e->pitz_params.size(); ++k) { pitzp(a, e->pitz_params[k]); a.end(); } out("pitz_params", a); }
+  { Acc a; for (size_t k = 0; k < e->sit_params.size(); ++k) { pitzp(a, e->sit_params[k]); a.end(); } out("sit_params", a); }
+  { Acc a; for (size_t k = 0; k < e->theta_params.size(); ++k) { theta_param* t = e->theta_params[k]; if (t) { a.d(t->zj); a.d(t->zk); a.d(t->etheta); a.d(t->ethetap); } a.end(); } out("theta_params", a); }
+  { Acc a; pitzp(a, e->aphi); a.end(); out("aphi", a); }
+  { Acc a; for (size_t k = 0; k < e->rates.size(); ++k) { a.s(e->rates[k].name); a.s(hx::hex(e->rates[k].commands)); a.i(e->rates[k].new_def); a.p(e->rates[k].linebase); a.p(e->rates[k].varbase); a.p(e->rates[k].loopbase); a.end(); } out("rates", a); }
+  { Acc a; if (e->user_print) { a.s(e->user_print->name); a.s(hx::hex(e->user_print->commands)); a.i(e->user_print->new_def); a.p(e->user_print->linebase); a.p(e->user_print->varbase); a.p(e->user_print->loopbase); } a.end(); out("user_print", a); }
+  { Acc a; for (std::map<int, UserPunch>::iterator it = e->UserPunch_map.begin(); it != e->UserPunch_map.end(); ++it) { a.i(it->first); for (size_t q = 0; q < it->second.Get_headings().size(); ++q) a.s(it->second.Get_headings()[q]);
+      class rate* r = it->second.Get_rate(); if (r) { a.s(hx::hex(r->commands)); a.i(r->new_def); a.p(r->linebase); } a.end(); } out("user_punch", a); }
+  { Acc a; for (std::map<int, SelectedOutput>::iterator it = e->SelectedOutput_map.begin(); it != e->SelectedOutput_map.end(); ++it) { a.i(it->first); a.i(it->second.Get_active()); a.i(it->second.Get_new_def()); a.i(it->second.Get_high_precision());
+      a.i((long long)it->second.Get_totals().size()); a.i((long long)it->second.Get_molalities().size()); a.i((long long)it->second.Get_si().size()); a.p(it->second.Get_punch_ostream()); a.end(); } out("selected_output", a); }
+  { Acc a; for (size_t k = 0; k < e->calculate_value.size(); ++k) { class calculate_value* c = e->calculate_value[k]; a.s(c->name); a.d(c->value); a.s(hx::hex(c->commands)); a.i(c->new_def); a.i(c->calculated); a.p(c->linebase); a.end(); } out("calculate_value", a); }
+  { Acc a; for (size_t k = 0; k < e->master_isotope.size(); ++k) { class master_isotope* m = e->master_isotope[k]; a.s(m->name); a.s(m->units); a.d(m->standard); a.d(m->ratio); a.d(m->moles); a.i(m->total_is_major); a.i(m->minor_isotope); a.s(m->elt ? m->elt->name : 0); a.end(); } out("master_isotope", a); }
+  { Acc a; for (std::map<std::string, double>::iterator it = e->gfw_map.begin(); it != e->gfw_map.end(); ++it) { a.s(it->first); a.d(it->second); a.end(); } out("gfw_map", a); }
+  { Acc a; for (std::map<std::string, double>::iterator it = e->save_values.begin(); it != e->save_values.end(); ++it) { a.s(hx::hex(it->first)); a.d(it->second); a.end(); } out("save_values", a); }
+  { Acc a; for (size_t k = 0; k < e->cell_data.size() && k < 16; ++k) { a.d(e->cell_data[k].length); a.d(e->cell_data[k].mid_cell_x); a.d(e->cell_data[k].disp); a.d(e->cell_data[k].temp); a.d(e->cell_data[k].por); a.d(e->cell_data[k].por_il); a.d(e->cell_data[k].potV); a.i(e->cell_data[k].punch); a.i(e->cell_data[k].print); a.end(); } out("cell_data", a); }
+  { Acc a; a.p(e->basic_interpreter); a.i((long long)e->strings_map.size()); a.i((long long)e->Rxn_solution_map.size()); a.i((long long)e->species_map.size()); a.i((long long)e->phases_map.size()); a.i((long long)e->elements_map.size()); a.i((long long)e->logk_map.size());
+      a.i((long long)e->isotope_ratio.size()); a.i((long long)e->isotope_alpha.size()); a.i((long long)e->inverse.size()); a.end(); out("misc", a); }
+}
 
 static double cbfn(double x1, double x2, const char* s, void* cookie) { return x1 * 1000 + x2 + (s ? (double)strlen(s) : 0); }
 
@@ -227,7 +299,8 @@ int main() {
     }
     else if (op == "probe") probe(p, w[1], o);
     else if (op == "wstate") TestIPhreeqc::wstate(p, w[1], o);
-    else if (op == "state") TestIPhreeqc::estate(p, w[1], o);
+    else if (op == "state") { TestIPhreeqc::estate(p, w[1], o); TestIPhreeqc::deep(p, w[1], o, false); }
+    else if (op == "deepv") TestIPhreeqc::deep(p, w[1], o, true);
     else if (op == "mark") o << "M " << w[1] << "\n";
     else o << "R error unknown-op " << op << "\n";
     o.flush();
